@@ -7,7 +7,7 @@ from hypothesis import strategies as st
 
 from vlib import env, ossl
 from vlib import rfc6979ref as R
-from vlib.core import Part, Violation
+from vlib.core import HarnessError, Part, Violation
 
 PROPERTY = "C18"
 LEVEL = "exploration"
@@ -32,7 +32,7 @@ RULE = (
     "arity) and malformed DER (every proper prefix, trailing bytes inside/outside, BER length forms, padded/negative/empty integers, "
     "wrong tags): BadSignatureError demanded, any other exception or acceptance is a violation. generated: Hypothesis cases over the "
     "same space (edge keys/nonces, messages to 200 bytes, extra entropy) through the grid oracle, shrinkable. vectors: the published "
-    "RFC 6979 values against the library itself. Non-trivial = every executed case (each signs and verifies at least once); distinct "
+    "RFC 6979 values against the library itself. digest_lengths: on every curve digests of olen-1, olen, olen+1, olen+9 bytes (top bits set) through sign_digest(k=) / verify_digest / sign_digest_deterministic with allow_truncate=True against the ECDSA equation over the leftmost min(bitlen(n), 8*len) bits, OpenSSL in both directions and the RFC 6979 reference. Non-trivial = every executed case (each signs and verifies at least once); distinct "
     "by (curve, hash, encoding, canonisation, key, message)."
 )
 ASSUMPTIONS = [
@@ -68,7 +68,7 @@ ENCS = ["string", "strings", "der"]
 
 REQUIRED_CLASSES = (
     ["curve=" + c for c in CNAMES] + ["hash=" + h for h in HASHES] + ["enc=" + e for e in ENCS]
-    + ["canon=0", "canon=1", "canon.changed-s", "digest>order", "digest<=order", "key=1", "key=n-1",
+    + ["diglen=olen.order-not-whole-bytes", "diglen=olen-1", "diglen=olen+", "canon=0", "canon=1", "canon.changed-s", "digest>order", "digest<=order", "key=1", "key=n-1",
        "rfc6979.candidate-rejected", "rfc6979.bits2octets-reduced", "rfc6979.multi-block-T", "rfc6979.retry_gen>0",
        "openssl-sig.high-s", "openssl-sig.low-s", "otherkey=n-x",
        "tamper.full-sweep", "tamper.sig-bit", "tamper.msg-bit", "tamper.der.malformed", "tamper.der.wellformed", "tamper.r-or-s>=n",
@@ -1023,9 +1023,79 @@ def check_boundary_s(case, rec):
             raise HarnessError("oracle disagreement: OpenSSL rejects the constructed signature on %s" % cname)
 
 
+# ---------------------------------------------------------------------------------------------------- part: digest_lengths
+# Digests of ARBITRARY length through the *_digest API with allow_truncate=True: ECDSA uses the leftmost min(bitlen(n), 8*len) BITS of the
+# digest.  On curves whose order is not a whole number of bytes (521, 161, 225.. bits) a digest of exactly ceil(bitlen/8) bytes is already
+# "longer than the order" - by a few bits.  Lengths olen-1, olen, olen+1 and olen+9 with the top bits set, on every curve.
+
+
+def enum_digest_lengths(tier, shard, nshards, rng):
+    base = random.Random("C18-diglen-%d" % env.seed_base())
+    i = 0
+    for cname in CNAMES:
+        n = order(cname)
+        for dl in (olen(n) - 1, olen(n), olen(n) + 1, olen(n) + 9):
+            for rep in range(1 if tier == "quick" else 4):
+                d = bytearray(base.randbytes(dl))
+                d[0] |= 0xC0
+                d[-1] |= 0x01
+                case = dict(curve=cname, dlen=dl, digest=bytes(d), x=_key_for(base, n), k=base.randrange(1, n), hash=base.choice(HASHES))
+                if i % nshards == shard:
+                    yield case
+                i += 1
+
+
+def check_digest_lengths(case, rec):
+    cname, digest, x, h = case["curve"], case["digest"], case["x"], case["hash"]
+    n = order(cname)
+    g = G(cname)
+    k = case["k"] % n or 1
+    rec.cls("diglen=" + ("olen-1" if len(digest) < olen(n) else "olen" if len(digest) == olen(n) else "olen+"))
+    if len(digest) == olen(n) and n.bit_length() % 8:
+        rec.cls("diglen=olen.order-not-whole-bytes")
+    rec.nt()
+    what = "%s, %d-byte digest %s, order of %d bits" % (cname, len(digest), digest.hex(), n.bit_length())
+    sk = signing_key(cname, x, h)
+    vk = sk.verifying_key
+    pt = vk.pubkey.point
+    pub = (int(pt.x()), int(pt.y()))
+    e = R.digest_to_int(digest, n)
+    # library signs -> the reference equation and OpenSSL agree
+    sig = lib_sign("sign_digest(allow_truncate=True)", sk.sign_digest, digest, sigencode=sigencode("string", False), k=k, allow_truncate=True)
+    r, s = dec_sig("string", sig, n)
+    want_r = g.mul(k)[0] % n
+    want_s = pow(k, -1, n) * (e + want_r * x) % n
+    if (r, s) != (want_r, want_s):
+        raise Violation("sign_digest(k=%#x, allow_truncate=True) gives r=%#x s=%#x; ECDSA over the leftmost %d bits of the digest gives r=%#x s=%#x [%s]" % (
+            k, r, s, min(n.bit_length(), 8 * len(digest)), want_r, want_s, what))
+    if not g.verify(pub, digest, r, s):
+        raise Violation("the library's signature is rejected by OpenSSL ECDSA_do_verify [%s]" % what)
+    # OpenSSL signs -> the library verifies
+    orr, oss = ossl_sign(g, x, digest, k)
+    if (orr, oss) != (want_r, want_s):
+        raise HarnessError("OpenSSL and the reference equation disagree on %s" % what)
+    try:
+        ok = vk.verify_digest(enc_sig("string", orr, oss, n), digest, sigdecode=sigdecode("string"), allow_truncate=True)
+    except Exception as ex:
+        ok = "%s: %s" % (type(ex).__name__, ex)
+    if ok is not True:
+        raise Violation("verify_digest(allow_truncate=True) of an OpenSSL signature: %r [%s]" % (ok, what))
+    # deterministic: RFC 6979 with h1 = the digest
+    dsig = lib_sign("sign_digest_deterministic(allow_truncate=True)", sk.sign_digest_deterministic, digest, hashfunc=hfun(h), sigencode=sigencode("string", False), allow_truncate=True)
+    dr, ds = dec_sig("string", dsig, n)
+    for kk, _rej in R.k_stream(n, x, h, digest):
+        rr = g.mul(kk)[0] % n
+        ss = pow(kk, -1, n) * (e + rr * x) % n
+        if rr and ss:
+            break
+    if (dr, ds) != (rr, ss):
+        raise Violation("sign_digest_deterministic(hashfunc=%s, allow_truncate=True) gives r=%#x s=%#x, RFC 6979 (k=%#x) gives r=%#x s=%#x [%s]" % (h, dr, ds, kk, rr, ss, what))
+
+
 def parts(tier):
     return [
         Part("vectors", check=check_vector, enum=enum_vectors, quick=(1, 0), thorough=(1, 0), exhaustive=True),
+        Part("digest_lengths", check=check_digest_lengths, enum=enum_digest_lengths, quick=(16, 0), thorough=(16, 0)),
         Part("tamper", check=check_tamper, enum=enum_tamper, quick=(32, 0), thorough=(64, 0)),
         Part("grid", check=check_cell, enum=enum_grid, quick=(16, 0), thorough=(32, 0)),
         Part("boundary_s", check=check_boundary_s, enum=enum_boundary_s, quick=(8, 0), thorough=(8, 0), exhaustive=True),
